@@ -44,6 +44,8 @@ static int gen_c09(cs_t *cs, void *k, const runcfg_t *cfg) {
     c->locale = (uint8_t)cs_range(cs, 0, 1);
     c->dirty = 1;
     c->argmode = (uint8_t)(cs_range(cs, 0, 5) == 0 ? 2 : 0);
+    /* a format longer than the RSIZE limit in front of the directive (narrow entry points and streams: the output fits the arena) */
+    if (cs_range(cs, 0, 11) == 0 && !(g_fent[c->ent].wide && g_fent[c->ent].sink == SK_BUF)) c->d[0].lit = LIT_LONG;
     return 1;
 }
 
